@@ -172,3 +172,99 @@ package vm
 //@   modifies contents(slots)
 //@   invariant slots != nil && fresh(slots) && (forall a common.Address :: elements[a] != slots)
 //@   invariant forall s common.Hash :: (s in slots) == (visited[s] && (s in existingSlots))
+
+// ---------------------------------------------------------------------------------------------
+// state_db_transient_store*.go — transientStorage: address -> (key -> value), a map of geth Storage maps
+// Abstract view: value of (a, k) is  t[a][k]  (zero hash when absent).
+// ---------------------------------------------------------------------------------------------
+//@ import ethstate "github.com/ethereum/go-ethereum/core/state"
+
+// Well-formedness: every stored inner map is non-nil and distinct addresses never share an inner map.
+//@ ghost macro tsOk(t transientStorage) bool = t != nil && (forall a common.Address, b common.Address :: ((a in t) ==> t[a] != nil) && ((a != b && (a in t) && (b in t)) ==> t[a] != t[b]))
+
+//@ func newTransientStorage() transientStorage
+//@   modifies nothing
+//@   ensures[C03.ts_new] result != nil && fresh(result) && (forall a common.Address :: !(a in result)) && tsOk(result)
+//@   panics never
+
+// Set writes into the inner map of this very address (allocating it when missing).
+//@ func (t transientStorage) Set(addr common.Address, key common.Hash, value common.Hash)
+//@   requires tsOk(t)
+//@   modifies contents(t), contents(t[addr])
+//@   ensures[C03.ts_set_view] forall a common.Address, k common.Hash :: t[a][k] == ((a == addr && k == key) ? value : old(t[a][k]))
+//@   ensures[C03.ts_set_noshare] (forall a common.Address :: a != addr ==> (t[a] == old(t[a]) && (a in t) == old(a in t))) && (addr in t) && (old(addr in t) ? t[addr] == old(t[addr]) : fresh(t[addr]))
+//@   ensures tsOk(t)
+//@   panics never
+
+//@ func (t transientStorage) Get(addr common.Address, key common.Hash) common.Hash
+//@   modifies nothing
+//@   ensures[C03.ts_get] result == t[addr][key]
+//@   panics never
+
+// Copy: deep copy — a new outer map and a new inner map for every address.
+//@ func (t transientStorage) Copy() transientStorage
+//@   modifies nothing
+//@   ensures[C03.ts_copy_fresh] result != nil && fresh(result) && (forall a common.Address :: (a in result) ==> (result[a] != nil && fresh(result[a])))
+//@   ensures[C03.ts_copy_equal] forall a common.Address, k common.Hash :: (a in result) == (a in t) && (k in result[a]) == (k in t[a]) && result[a][k] == t[a][k]
+//@   ensures[C03.ts_copy_ok] tsOk(result)
+//@   panics never
+//@ loop 1
+//@   modifies contents(storage)
+//@   invariant storage != nil && fresh(storage)
+//@   invariant forall a common.Address :: (a in storage) == (visited[a] && (a in t))
+//@   invariant forall a common.Address :: (a in storage) ==> (storage[a] != nil && fresh(storage[a]) && allocated(storage[a]))
+//@   invariant forall a common.Address, k common.Hash :: (a in storage) ==> ((k in storage[a]) == (k in t[a]) && storage[a][k] == t[a][k])
+//@   invariant forall a common.Address, b common.Address :: (a != b && (a in storage) && (b in storage)) ==> storage[a] != storage[b]
+
+// Clone: Copy behind the TransientStorage interface.
+//@ func (t transientStorage) Clone() TransientStorage
+//@   modifies nothing
+//@   ensures[C03.ts_clone] typeof(result) == type(transientStorage) && payload(result) != nil && fresh(payload(result))
+//@   ensures[C03.ts_clone_fresh] forall a common.Address :: (a in unbox(result, type(transientStorage))) ==> (unbox(result, type(transientStorage))[a] != nil && fresh(unbox(result, type(transientStorage))[a]))
+//@   ensures[C03.ts_clone_equal] forall a common.Address, k common.Hash :: (a in unbox(result, type(transientStorage))) == (a in t) && (k in unbox(result, type(transientStorage))[a]) == (k in t[a]) && unbox(result, type(transientStorage))[a][k] == t[a][k]
+//@   ensures[C03.ts_clone_ok] tsOk(unbox(result, type(transientStorage)))
+//@   panics never
+
+// TransientStorage interface: the only implementation is transientStorage; the interface-level contracts restate the
+// concrete ones for a receiver of that dynamic type.
+//@ func (t TransientStorage) Clone() TransientStorage
+//@   requires typeof(t) == type(transientStorage)
+//@   modifies nothing
+//@   ensures typeof(result) == type(transientStorage) && payload(result) != nil && fresh(payload(result))
+//@   ensures forall a common.Address :: (a in unbox(result, type(transientStorage))) ==> (unbox(result, type(transientStorage))[a] != nil && fresh(unbox(result, type(transientStorage))[a]))
+//@   ensures forall a common.Address, k common.Hash :: (a in unbox(result, type(transientStorage))) == (a in unbox(t, type(transientStorage))) && (k in unbox(result, type(transientStorage))[a]) == (k in unbox(t, type(transientStorage))[a]) && unbox(result, type(transientStorage))[a][k] == unbox(t, type(transientStorage))[a][k]
+//@   ensures tsOk(unbox(result, type(transientStorage)))
+//@   panics never
+//@ func (t TransientStorage) Set(addr common.Address, key common.Hash, value common.Hash)
+//@   requires typeof(t) == type(transientStorage) && tsOk(unbox(t, type(transientStorage)))
+//@   modifies contents(unbox(t, type(transientStorage))), contents(unbox(t, type(transientStorage))[addr])
+//@   ensures forall a common.Address, k common.Hash :: unbox(t, type(transientStorage))[a][k] == ((a == addr && k == key) ? value : old(unbox(t, type(transientStorage))[a][k]))
+//@   ensures (forall a common.Address :: a != addr ==> (unbox(t, type(transientStorage))[a] == old(unbox(t, type(transientStorage))[a]) && (a in unbox(t, type(transientStorage))) == old(a in unbox(t, type(transientStorage))))) && (addr in unbox(t, type(transientStorage))) && (old(addr in unbox(t, type(transientStorage))) ? unbox(t, type(transientStorage))[addr] == old(unbox(t, type(transientStorage))[addr]) : fresh(unbox(t, type(transientStorage))[addr]))
+//@   ensures tsOk(unbox(t, type(transientStorage)))
+//@   panics never
+//@ func (t TransientStorage) Get(addr common.Address, key common.Hash) common.Hash
+//@   requires typeof(t) == type(transientStorage)
+//@   modifies nothing
+//@   ensures result == unbox(t, type(transientStorage))[addr][key]
+//@   panics never
+
+// ---------------------------------------------------------------------------------------------
+// state_db_snapshot.go / state_db.go — the snapshot stack (C03)
+// ---------------------------------------------------------------------------------------------
+
+// content equality of the revertible components (a = now, b = now)
+//@ ghost macro trackerEq(a AccountTracker, b AccountTracker) bool = forall x common.Address :: (x in a) == (x in b)
+//@ ghost macro alEq(a *AccessList2, b *AccessList2) bool = (forall x common.Address :: (x in a.elements) == (x in b.elements)) && (forall x common.Address, s common.Hash :: (s in a.elements[x]) == (s in b.elements[x]))
+//@ ghost macro logsEq(a Logs, b Logs) bool = len(a) == len(b) && (forall i int :: (0 <= i && i < len(a)) ==> a[i] == b[i])
+//@ ghost macro tsEq(a transientStorage, b transientStorage) bool = forall x common.Address, k common.Hash :: (x in a) == (x in b) && a[x][k] == b[x][k]
+
+// a snapshot record is taken: a child layer of workingCtx with the same view, and DEEP copies of every revertible component
+//@ func newStateDbSnapshotFromStateDb(stateDb *cStateDb, workingCtx sdk.Context) RtStateDbSnapshot
+//@   requires stateDb != nil && stateDb.accessList != nil && typeof(stateDb.transientStorage) == type(transientStorage)
+//@   modifies nothing
+//@   ensures[C03.rec_layer] lyrParent(layer(result.snapshotCtx)) == layer(workingCtx) && lyrDepth(layer(result.snapshotCtx)) == lyrDepth(layer(workingCtx)) + 1 && viewEq(layer(result.snapshotCtx), layer(workingCtx)) && hdr(result.snapshotCtx) == hdr(workingCtx)
+//@   ensures[C03.rec_write_func] isWriteCache(result.writeFunc) && wcChild(result.writeFunc) == layer(result.snapshotCtx) && wcParent(result.writeFunc) == layer(workingCtx)
+//@   ensures[C03.rec_equal] trackerEq(result.touched, stateDb.touched) && trackerEq(result.selfDestructed, stateDb.selfDestructed) && alEq(result.accessList, stateDb.accessList) && logsEq(result.logs, stateDb.logs) && result.refund == stateDb.refund && typeof(result.transientStorage) == type(transientStorage) && tsEq(unbox(result.transientStorage, type(transientStorage)), unbox(stateDb.transientStorage, type(transientStorage)))
+//@   ensures[C03.rec_fresh] result.touched != nil && fresh(result.touched) && result.selfDestructed != nil && fresh(result.selfDestructed) && result.touched != result.selfDestructed && result.accessList != nil && fresh(result.accessList) && fresh(result.accessList.elements) && (forall a common.Address :: result.accessList.elements[a] == nil || fresh(result.accessList.elements[a])) && (stateDb.logs == nil ? result.logs == nil : fresh(base(result.logs))) && fresh(payload(result.transientStorage)) && (forall a common.Address :: (a in unbox(result.transientStorage, type(transientStorage))) ==> fresh(unbox(result.transientStorage, type(transientStorage))[a]))
+//@   ensures alOk(result.accessList) && tsOk(unbox(result.transientStorage, type(transientStorage)))
+//@   panics never
